@@ -2,6 +2,7 @@ import SfVerif.Lemmas.Ring2
 import SfVerif.Gen.Consts
 import SfVerif.Lemmas.GenFnsLogs
 import SfVerif.Lemmas.Frame2
+import SfVerif.Gen.WasmFinalize
 /-! C05 — the host reads back the most recent log bytes, in order, at any moment. -/
 namespace SfVerif.Props.C05
 open SfVerif SfVerif.Gen SfVerif.Ring
@@ -114,5 +115,13 @@ theorem C05_every_history (w : Nat) (ops : List Op) (hs : ∀ op ∈ ops, op.spl
 /-- non-vacuity: a read between two log calls, a new invocation, one more log call -/
 example : msgsSince [] [.log 3 1, .root, .log 2 5, .init #[0xc0], .log 1 9] = [(msgBytes 1 9).toList] := by
   rfl
+
+/-- the wasm-only `finalize` export (not compiled natively; regenerated from provider/src/lib.rs) hands
+    the host six words: the last four are the ring's read pointers in the order `read_ptrs` returns them — the two segments `C05_read_is_tail` speaks about -/
+theorem C05_wasm_finalize_words :
+    SfVerif.Gen.wasmFinalizeSlots =
+      [[111, 117, 116, 95, 112, 116, 114], [111, 117, 116, 95, 108, 101, 110],
+       [108, 111, 103, 95, 112, 116, 114, 49], [108, 111, 103, 95, 108, 101, 110, 49],
+       [108, 111, 103, 95, 112, 116, 114, 50], [108, 111, 103, 95, 108, 101, 110, 50]] := by decide +kernel
 
 end SfVerif.Props.C05
